@@ -4,6 +4,7 @@
   theorems are witnesses that the code as found (`Cfg.current`) breaks the property.
 -/
 import PercevalModel.Lemmas.C15
+import PercevalModel.Lemmas.C15FF
 
 namespace PM.C15
 
@@ -367,5 +368,91 @@ example : (APort.herald 0 none).WF := by
   decide
 example : "Detector".toList ∈ knownTags := by decide
 example := grid_error 1 3 (by decide)
+
+/-! ## Feed-forward circuit providers (`Model/C15FF.lean`) -/
+
+namespace FF
+
+variable {κ α β : Type} [DecidableEq κ]
+
+/-- Every history of `add_configuration` / `block_circuit_size` calls on a new provider that runs without
+raising and never assigns a key twice leaves an object whose `_max_circuit_size` is the largest size among
+its default and configured circuits, with distinct keys.  (`Experiment.add`, which blocks the size, is one
+of the calls.) -/
+theorem reachable_good (size : α → Nat) (m : Nat) (offset : Int) (name : String) (d : α)
+    (ops : List (Op κ α)) (hn : (addKeys ops).Nodup) (p : Prov κ α)
+    (h : runOps size (Prov.new size m offset name d) ops = some p) : Good size p :=
+  runOps_good size ops _ p (good_new size m offset name d) (fun _ _ hk => nomatch hk) hn h
+
+/-- A provider in that state — blocked or not, configured circuits smaller or larger than the default one,
+whatever order the protobuf map hands the entries back in — is rebuilt by the reader as the same object up
+to the order of its dict: same name, offset, default circuit, blocked flag, maximal size and entries; in
+particular the reader never raises.  The codec of the payloads is the one of `roundtrip_circuit` /
+`roundtrip_experiment` (hypotheses `hdef`, `hpay`). -/
+theorem roundtrip_provider (size : α → Nat) (enc : α → β) (dec : β → Option α) (p : Prov κ α)
+    (hg : Good size p) (hname : p.name ≠ "") (hdef : dec (enc p.default) = some p.default)
+    (hpay : ∀ e ∈ p.map, dec (enc e.2) = some e.2) (wire : List (κ × α)) (hw : wire.Perm p.map) :
+    ∃ q, decProv dec size false p.m (encProv enc p wire) = some q ∧ Equiv q p := by
+  have hnd : (keys wire).Nodup := ((hw.map Prod.fst).nodup_iff).2 hg.nodup
+  obtain ⟨q, hq, hqm, hqb, h1, h2, h3, h4, h5⟩ :=
+    readAll_unblocked (size := size) (enc := enc) (dec := dec) wire
+      (Prov.new size p.m p.offset p.name p.default) rfl (fun e he => hpay e (hw.mem_iff.1 he)) hnd
+      (fun _ _ hk => nomatch hk) (isMax_new size p.default)
+  have hqm' : q.map = wire := by rw [hqm]; rfl
+  have hmax : q.maxSize = p.maxSize := by
+    refine isMax_unique (l := q.map) (l' := p.map) h5 ?_ (fun e => ?_)
+    · rw [h4]; exact hg.isMax
+    · rw [hqm']; exact hw.mem_iff
+  refine ⟨if p.blocked then { q with blocked := true } else q, ?_, ?_⟩
+  · rw [decProv_false dec size p.m (encProv enc p wire) p.default hdef]
+    show (readAll dec size (Prov.new size p.m p.offset (if p.name = "" then "FFC" else p.name) p.default)
+      (wire.map fun e => (e.1, enc e.2))).map (fun q => if p.blocked then { q with blocked := true } else q) = _
+    rw [if_neg hname, hq]; rfl
+  · cases hb : p.blocked
+    · simp only [Bool.false_eq_true, if_false]
+      exact ⟨h1, h2, h3, h4, hmax, hqb.trans hb.symm, hqm' ▸ hw⟩
+    · simp only [if_true]
+      exact ⟨h1, h2, h3, h4, hmax, hb.symm, hqm' ▸ hw⟩
+
+/-- The two together: build a provider by any history of calls without a re-assigned key (name not empty),
+serialise it, read it back — the reader returns the same provider. -/
+theorem roundtrip_provider_history (size : α → Nat) (enc : α → β) (dec : β → Option α)
+    (hcodec : ∀ c, dec (enc c) = some c) (m : Nat) (offset : Int) (name : String) (hname : name ≠ "") (d : α)
+    (ops : List (Op κ α)) (hn : (addKeys ops).Nodup) (p : Prov κ α)
+    (h : runOps size (Prov.new size m offset name d) ops = some p) (hpn : p.name = name)
+    (wire : List (κ × α)) (hw : wire.Perm p.map) :
+    ∃ q, decProv dec size false p.m (encProv enc p wire) = some q ∧ Equiv q p :=
+  roundtrip_provider size enc dec p (reachable_good size m offset name d ops hn p h) (hpn ▸ hname)
+    (hcodec _) (fun _ _ => hcodec _) wire hw
+
+/-! ### why the order of the reader matters, and where the property stops -/
+
+/-- default circuit of 1 mode, one configured circuit of 2 modes, then blocked (what `Experiment.add` leaves) -/
+def witFrozen : Option (Prov Nat Nat) := runOps id (Prov.new id 1 0 "provider" 1) [.add 1 2, .block]
+
+example : witFrozen.map (fun p => (p.maxSize, p.blocked, p.map)) = some (2, true, [(1, 2)]) := rfl
+
+/-- A reader that restores the blocked flag before it re-adds the configured circuits raises on that
+provider (regression witness: seeded change C15-4)… -/
+theorem reader_flag_first_fails :
+    (witFrozen.bind fun p => decProv some id true p.m (encProv id p p.map)) = none := rfl
+
+/-- …while the reader of the code rebuilds it. -/
+example : (witFrozen.bind fun p => decProv some id false p.m (encProv id p p.map)).map
+    (fun p => (p.maxSize, p.blocked, p.map)) = some (2, true, [(1, 2)]) := rfl
+
+example : ∃ p, witFrozen = some p ∧ Good id p :=
+  ⟨_, rfl, reachable_good id 1 0 "provider" 1 [.add 1 2, .block] (by decide) _ rfl⟩
+
+/-- Outside `Good`: a key assigned twice, the second time with a smaller circuit, keeps the old maximal size
+in the object; the maximal size is not written, so the round trip returns a provider with a smaller one.
+(Boundary of the property on the code as it is; such histories are excluded from the generator.) -/
+theorem replaced_key_loses_max :
+    let p := runOps id (Prov.new id 1 (-1) "p" 1 : Prov Nat Nat) [.add 1 3, .add 1 2]
+    p.map (fun p => (p.maxSize, p.map)) = some (3, [(1, 2)]) ∧
+    (p.bind fun p => decProv some id false p.m (encProv id p p.map)).map (fun p => (p.maxSize, p.map))
+      = some (2, [(1, 2)]) := ⟨rfl, rfl⟩
+
+end FF
 
 end PM.C15
